@@ -12,20 +12,20 @@ From Gnmi Require Import Base.Prelude FakeQ.GoRand FakeQ.FakeQModel FakeQ.FakeQP
 From Coq Require Import Sorting.Sorted.
 Open Scope Z_scope.
 
-(** clause 1: non-decreasing timestamps, while no timestamp addition leaves
-    int64 (guard = known finding KF-C20-2; without it: C20_ts_nondecreasing_refuted) *)
+(** clause 1: non-decreasing timestamps, unconditionally (since df96f85 a step
+    that would leave int64 is an error that ends the stream; the unpatched
+    variant is refuted by C20_update_ts_unpatched_wraps) *)
 Theorem C20_ts_nondecreasing :
-  forall vs g ds n,
-    no_ts_overflow (fst (run_cfg vs g ds n)) ->
-    StronglySorted Z.le (map vts (fst (run_cfg vs g ds n))).
+  forall vs g ds n, StronglySorted Z.le (map vts (fst (run_cfg vs g ds n))).
 Proof. exact ts_nondecreasing. Qed.
 Print Assumptions C20_ts_nondecreasing.
 
-Theorem C20_ts_nondecreasing_refuted :
-  fix_C20_2 = false ->
-  exists vs g ds n, ~ StronglySorted Z.le (map vts (fst (run_cfg vs g ds n))).
-Proof. exact ts_nondecreasing_refuted. Qed.
-Print Assumptions C20_ts_nondecreasing_refuted.
+Theorem C20_update_ts_unpatched_wraps :
+  exists ts dmin dmax t ts' t',
+    0 <= ts <= max_i64 /\ 0 <= dmin <= dmax /\ dmax <= max_i64 /\
+    update_ts_gen false false ts dmin dmax t = RV ts' t' /\ ts' < ts.
+Proof. exact update_ts_unpatched_wraps. Qed.
+Print Assumptions C20_update_ts_unpatched_wraps.
 
 (** clause 2: repeat counts (at most [repeat] emissions; exactly [repeat] when
     the queue runs dry, which cannot happen while an unbounded value exists) *)
@@ -64,13 +64,13 @@ Theorem C20_intn_range :
 Proof. exact intn_range. Qed.
 Print Assumptions C20_intn_range.
 
-(** clause 4: timestamp steps of one value stay within its delta bounds *)
+(** clause 4: timestamp steps of one value stay within its delta bounds, for
+    every configuration whose timestamps and deltas are int64 values *)
 Theorem C20_ts_step_bounds :
   forall vs g ds n a x b y c,
-    ids_ok vs ->
+    ids_ok vs -> Forall i64v vs ->
     fst (run_cfg vs g ds n) = a ++ x :: b ++ y :: c -> vid y = vid x ->
     (forall w, In w b -> vid w <> vid x) ->
-    vts x + vdmax x <= max_i64 ->
     0 <= vdmin x /\ vdmin x <= vts y - vts x <= vdmax x.
 Proof. exact ts_step_bounds. Qed.
 Print Assumptions C20_ts_step_bounds.
@@ -97,20 +97,26 @@ Theorem C20_insert_is_sorted_insertion :
 Proof. exact insert_value_ins. Qed.
 Print Assumptions C20_insert_is_sorted_insertion.
 
-(** the width guard: updateTimestamp panics exactly when delta_max-delta_min+1
-    leaves int64 (KF-C20-1), and some int64 configuration does panic *)
-Theorem C20_update_ts_panic_iff :
-  forall ts dmin dmax t,
-    fix_C20_1 = false ->
-    update_ts ts dmin dmax t = RPanic <->
-    (0 <= ts /\ 0 <= dmin <= dmax /\ wrap64 (dmax - dmin + 1) <= 0).
-Proof. exact update_ts_panic_iff. Qed.
-Print Assumptions C20_update_ts_panic_iff.
+(** the width guard (c1a0b35): updateTimestamp no longer panics; before the
+    repair it panicked exactly when delta_max-delta_min+1 left int64, which an
+    int64 configuration can do (regression witnesses) *)
+Theorem C20_update_ts_no_panic :
+  forall f2 ts dmin dmax t, update_ts_gen true f2 ts dmin dmax t <> RPanic.
+Proof. exact update_ts_no_panic. Qed.
+Print Assumptions C20_update_ts_no_panic.
 
-Theorem C20_no_panic_refuted :
-  fix_C20_1 = false -> exists vs g ds n, snd (run_cfg vs g ds n) = EPanic.
-Proof. exact no_panic_refuted. Qed.
-Print Assumptions C20_no_panic_refuted.
+Theorem C20_update_ts_unpatched_panic_iff :
+  forall f2 ts dmin dmax t,
+    update_ts_gen false f2 ts dmin dmax t = RPanic <->
+    (0 <= ts /\ 0 <= dmin <= dmax /\ wrap64 (dmax - dmin + 1) <= 0).
+Proof. exact update_ts_unpatched_panic_iff. Qed.
+Print Assumptions C20_update_ts_unpatched_panic_iff.
+
+Theorem C20_update_ts_unpatched_panics :
+  exists ts dmin dmax t, 0 <= ts <= max_i64 /\ 0 <= dmin <= dmax /\ dmax <= max_i64 /\
+    update_ts_gen false false ts dmin dmax t = RPanic.
+Proof. exact update_ts_unpatched_panics. Qed.
+Print Assumptions C20_update_ts_unpatched_panics.
 
 (** soundness of the order clause of the executable specification K_P (the one
     applied to the implementation's own observations) *)
@@ -118,3 +124,33 @@ Theorem C20_K_ts_sorted_sound :
   forall l, FakeQCheck.ts_sorted_from None l = true -> StronglySorted Z.le (timed l).
 Proof. exact K_ts_sorted_sound. Qed.
 Print Assumptions C20_K_ts_sorted_sound.
+
+(** FixedQueue (fixed_queue.go through client.go reset): strict delivery of the
+    configured responses followed by the sync marker *)
+Theorem C20_fixed_strict_delivery :
+  forall (R : Type) (arr : list R) k nosync sync steps,
+    (k <= List.length arr)%nat ->
+    fq_run steps (fst (fixed_reset arr k nosync sync)) =
+    firstn steps (firstn k arr ++ if nosync then [] else [sync]).
+Proof. exact @fixed_strict_delivery. Qed.
+Print Assumptions C20_fixed_strict_delivery.
+
+(** reproducibility of successive fixed generators built from prefixes of one
+    backing array: holds with the sync disabled, and in general once NewFixed no
+    longer shares the configuration's slice (KF-C20-3) *)
+Theorem C20_fixed_scenario_repro :
+  forall (R : Type) ks (arr : list R) nosync sync steps,
+    fix_C20_3 = true \/ nosync = true ->
+    Forall (fun k => (k <= List.length arr)%nat) ks ->
+    fixed_scenario arr ks nosync sync steps =
+    map (fun k => firstn steps (firstn k arr ++ if nosync then [] else [sync])) ks.
+Proof. exact @fixed_scenario_repro. Qed.
+Print Assumptions C20_fixed_scenario_repro.
+
+Theorem C20_fixed_repro_refuted :
+  fix_C20_3 = false ->
+  exists (arr : list nat) k sync steps,
+    nth 0 (fixed_scenario arr [List.length arr; k; List.length arr] false sync steps) [] <>
+    nth 2 (fixed_scenario arr [List.length arr; k; List.length arr] false sync steps) [].
+Proof. exact fixed_repro_refuted. Qed.
+Print Assumptions C20_fixed_repro_refuted.
